@@ -1107,9 +1107,14 @@ private:
 
       // Reuse the connection only if the client allows it, the server did not
       // signal close, there are no surplus bytes, and the body was not
-      // close-delimited (DD-6/DD-9/DD-A9).
+      // close-delimited (DD-6/DD-9/DD-A9). The residual-data probe comes LAST so
+      // it only runs for a connection that would otherwise be kept: frameResponse
+      // sees surplus only within the bytes already handed over, and receiveSync
+      // hands over at most sizeof(buffer) bytes per call, so bytes that follow a
+      // message ending exactly on a read boundary are still in the transport.
       const bool reusable = _config.reuseConnections && !responseRequestsClose(resp) &&
-                            !forceEvict && framing.mode != BodyMode::CloseDelimited;
+                            !forceEvict && framing.mode != BodyMode::CloseDelimited &&
+                            !residualDataPending(sessionId);
       if (reusable)
       {
         // Keep the connection warm (async mode). If the mode switch fails the
@@ -1132,6 +1137,26 @@ private:
       dropConnection(hostPort, sessionId);
       throw;
     }
+  }
+
+  /// \brief True if the transport still holds something for \p sessionId after
+  /// the response was framed: received-but-unread bytes (surplus beyond the
+  /// framed message that did not fit the last read), a peer close, or an error.
+  ///
+  /// Called only for a connection that is otherwise reusable. Switching such a
+  /// connection back to async mode would flush the residue to a data callback
+  /// HttpClient never installs (i.e. drop it silently) and the connection would be
+  /// cached although it carried surplus bytes (RFC 9112 §9.2: a response must not
+  /// be followed by unsolicited data on a connection that is to be reused). A
+  /// zero-timeout receiveSync is a pure probe: it returns Timeout at once when
+  /// nothing is pending, and anything else means the connection must be evicted.
+  bool residualDataPending(SessionId sessionId)
+  {
+    char probe = 0;
+    std::size_t probeLen = sizeof(probe);
+    auto probeResult =
+      _transport->receiveSync(sessionId, &probe, probeLen, std::chrono::milliseconds(0));
+    return probeResult.isOk() || probeResult.error().code != TransportError::Timeout;
   }
 
   /// \brief Frame the accumulated response bytes (RFC 9112 §6.3). Parses the
